@@ -136,7 +136,7 @@ def data_of(ids, specs):
 def to_gallina(case, obs):
     if case.get("kind") == "real":
         return None
-    if "driver_exception" in obs:
+    if "driver_exception" in obs or "watchdog" in obs:
         return "Case true %s [] Full [] FuelOut" % G.g_cfg(case)
     cmps = G.g_cmps(obs["cmps"])
     out = G.OUTCOMES.get(obs["outcome"])
